@@ -207,7 +207,7 @@ func genShaperHistory(r *gen.RNG, i int) Witness {
 				if r.Bool() {
 					w.Ops = append(w.Ops, Op{K: "setvar", Face: f, Vars: genVars(r, fi)})
 				} else {
-					w.Ops = append(w.Ops, Op{K: "setcoords", Face: f, Coords: genCoords(r, fi)})
+					w.Ops = append(w.Ops, Op{K: "setcoords", Face: f, Coords: genCoords(r, fi), InPlace: r.Bool()})
 				}
 			default:
 				w.Ops = append(w.Ops, Op{K: "setppem", Face: f, Ppem: genPpem(r)})
@@ -329,7 +329,7 @@ func judgeShaper(w Witness) (vs []violation, st *histStats) {
 			mutatedSinceShape[op.Face] = true
 			st.c("op=Face.SetVariations-between-shapes")
 		case "setcoords":
-			faces[op.Face].setCoords(op.Coords)
+			faces[op.Face].setCoords(op.Coords, op.InPlace)
 			mutatedSinceShape[op.Face] = true
 			st.c("op=Face.SetCoords-between-shapes")
 		case "setppem":
